@@ -217,15 +217,22 @@ fn system_and_fit(ctx: &mut Ctx, conv: &Converter) {
         let val = if range { Value::Range { start: Number::Regular(v), end: Number::Regular(v * 1.5 + 1.0) } } else { Value::Number(Number::Regular(v)) };
         let orig = Quantity::new(val, Some(key.clone()));
         let Some((pq, ob_s, ob_e)) = base_amount(conv, &orig) else { continue };
-        for op in 0..3 {
+        for op in 0..5 {
             let case = Case::new("system", format!("{orig} op{op}"), 0, "bundled").with(json!({"op": op, "bits": v.to_bits(), "unit": key, "range": range}));
             ctx.evals += 1;
             let mut q = orig.clone();
+            // op 3 / 4: a lossy conversion first (it may record a fraction error), then fit / the other system and fit:
+            // the recorded error is part of the amount and has to survive the second call
             let sys = if op == 0 { Some(System::Metric) } else if op == 1 { Some(System::Imperial) } else { None };
-            let res = crate::core::guarded(|| match sys {
-                Some(s) => q.convert(s, conv),
-                None => q.fit(conv),
+            let res = crate::core::guarded(|| match op {
+                0 | 1 => q.convert(sys.unwrap(), conv),
+                2 => q.fit(conv),
+                3 => q.convert(System::Imperial, conv).and_then(|_| q.fit(conv)),
+                _ => q.convert(System::Imperial, conv).and_then(|_| q.convert(System::Metric, conv)).and_then(|_| q.convert(System::Imperial, conv)).and_then(|_| q.fit(conv)),
             });
+            if op >= 3 {
+                ctx.count("conversion_sequences");
+            }
             let res = match res {
                 Ok(r) => r,
                 Err(p) => {
@@ -243,9 +250,10 @@ fn system_and_fit(ctx: &mut Ctx, conv: &Converter) {
             };
             // fitting stays in the unit's own system; a unit without a system uses the converter's default system
             // (units_file rustdoc: "the unit doesn't belong to one, so the default is used")
-            let target_sys = match sys {
-                Some(s) => Some(s),
-                None => u.system.or(Some(conv.default_system())),
+            let target_sys = match (op, sys) {
+                (_, Some(s)) => Some(s),
+                (2, None) => u.system.or(Some(conv.default_system())),
+                _ => Some(System::Imperial),
             };
             let allowed = conv.best_units(pq, target_sys);
             if !allowed.iter().any(|a| a.symbol() == nu.symbol()) {
@@ -267,7 +275,7 @@ fn system_and_fit(ctx: &mut Ctx, conv: &Converter) {
                     _ => "system_results_regular",
                 });
                 if ctx.evals % 50_000 == 1 {
-                    ctx.sample(json!({"from": orig.to_string(), "op": (["to metric", "to imperial", "fit"][op]), "to": q.to_string(), "value": format!("{:?}", q.value())}));
+                    ctx.sample(json!({"from": orig.to_string(), "op": (["to metric", "to imperial", "fit", "to imperial, fit", "imperial, metric, imperial, fit"][op]), "to": q.to_string(), "value": format!("{:?}", q.value())}));
                 }
             }
         }
@@ -392,7 +400,7 @@ fn recipes(ctx: &mut Ctx, conv: &Converter) {
 /// The standard definitions still hold between units (1 kg = 1000 g whatever the base is).
 pub fn layered_converter() -> Option<Converter> {
     let layer: cooklang::convert::UnitsFile = toml::from_str(
-        "default_system = \"imperial\"\n[extend.units]\ng = { ratio = 0.001 }\noz = { ratio = 0.028349523125 }\nlb = { ratio = 0.45359237 }\n\n[[quantity]]\nquantity = \"volume\"\n[quantity.units]\nunspecified = [{ names = [\"dash\", \"dashes\"], symbols = [\"ds\"], ratio = 0.000616115 }]\n",
+        "default_system = \"imperial\"\n[extend.units]\ng = { ratio = 0.001 }\noz = { ratio = 0.028349523125 }\nlb = { ratio = 0.45359237 }\ncelsius = { aliases = [\"centigrados\"] }\nfahrenheit = { aliases = [\"farenheit\"] }\n\n[[quantity]]\nquantity = \"volume\"\nbest = { metric = [\"dl\", \"l\"], imperial = [\"cup\", \"tsp\"] }\n[quantity.units]\nunspecified = [{ names = [\"dash\", \"dashes\"], symbols = [\"ds\"], ratio = 0.000616115 }]\n\n[[quantity]]\nquantity = \"temperature\"\n[quantity.units]\nmetric = [{ names = [\"kelvin\"], symbols = [\"K\"], ratio = 1 }]\n",
     )
     .ok()?;
     Converter::builder().with_units_file(cooklang::convert::UnitsFile::bundled()).ok()?.with_units_file(layer).ok()?.finish().ok()
@@ -432,12 +440,33 @@ fn layered(ctx: &mut Ctx) {
         for b in &all {
             k += 1;
             // mass (re-based) and volume (new unit without a system) are the quantities the layer touches
-            let touched = |u: &Unit| matches!(u.physical_quantity, PhysicalQuantity::Mass | PhysicalQuantity::Volume);
+            let touched = |u: &Unit| matches!(u.physical_quantity, PhysicalQuantity::Mass | PhysicalQuantity::Volume | PhysicalQuantity::Temperature);
             if !ctx.mine(k) || !touched(a) || !touched(b) || units::def_by_symbol(a.symbol()).is_none() || units::def_by_symbol(b.symbol()).is_none() {
                 continue;
             }
             check_pair(ctx, &conv, a.symbol(), b.symbol(), a, b, &[3.5, 0.0, 180.0, 1e6]);
             ctx.count("layered_pairs");
+        }
+    }
+    // the best lists are those of the LAST layer that gives one (documented: "always replace"), known here from the layer text
+    for (sys, want) in [(System::Metric, vec!["dl", "l"]), (System::Imperial, vec!["tsp", "c"])] {
+        let got: Vec<String> = conv.best_units(PhysicalQuantity::Volume, Some(sys)).iter().map(|u| u.symbol().to_string()).collect();
+        let case = Case::new("system", format!("best list volume {sys}"), 0, "layered");
+        ctx.evals += 1;
+        if got != want {
+            ctx.violation(&case, "system", "best_list_not_of_last_layer", format!("the last layer designates {want:?} for volume/{sys}, the converter reports {got:?}"));
+        } else {
+            ctx.count("layered_best_list_ok");
+        }
+        for (v, u) in [(50.0, "ml"), (2.0, "tsp"), (0.04, "l"), (0.25, "cup"), (3.0, "l"), (700.0, "ds")] {
+            let orig = Quantity::new(Value::Number(Number::Regular(v)), Some(u.to_string()));
+            let mut q = orig.clone();
+            if let Ok(Ok(())) = crate::core::guarded(|| q.convert(sys, &conv)) {
+                let sym = q.unit().and_then(|x| conv.find_unit(x)).map(|x| x.symbol().to_string()).unwrap_or_default();
+                if !want.contains(&sym.as_str()) {
+                    ctx.violation(&case, "system", "unit_not_in_designated_list", format!("{orig} to {sys} -> {q}: {sym} is not in the list {want:?} the last layer designates"));
+                }
+            }
         }
     }
     // fitting a unit that has no system: the default system (imperial here) decides the list
@@ -452,7 +481,7 @@ fn layered(ctx: &mut Ctx) {
                 Err(p) => ctx.panic_violation(&case, "fit", p),
                 Ok(Err(e)) => ctx.violation(&case, "system", "conversion_of_known_unit_failed", format!("{orig} -> {e}")),
                 Ok(Ok(())) => {
-                    let allowed: Vec<String> = conv.best_units(PhysicalQuantity::Volume, Some(System::Imperial)).iter().map(|u| u.symbol().to_string()).collect();
+                    let allowed: Vec<String> = vec!["tsp".to_string(), "c".to_string()];
                     let got = q.unit().and_then(|u| conv.find_unit(u)).map(|u| u.symbol().to_string()).unwrap_or_default();
                     let (ob, nb) = (base_amount(&conv, &orig), base_amount(&conv, &q));
                     let same = match (ob, nb) {
